@@ -37,6 +37,8 @@ def counted(fn, budget):
             out = 'value'
         except Budget:
             r, out = None, 'budget'
+        except MemoryError:
+            r, out = None, 'memory'
         except RecursionError:
             r, out = None, 'recursion'
         except Exception as ex:
@@ -290,6 +292,29 @@ def scaling_cases():
     return out
 
 
+class CountingBytes(bytes):
+    """bytes that count how many bytes are produced by slicing them (slices stay CountingBytes): copying work that no
+    call counter and, at moderate sizes, no clock sees"""
+    copied = [0]
+
+    def __getitem__(self, k):
+        r = bytes.__getitem__(self, k)
+        if isinstance(k, slice):
+            CountingBytes.copied[0] += len(r)
+            return CountingBytes(r)
+        return r
+
+
+def copy_work(raw):
+    CountingBytes.copied[0] = 0
+    try:
+        message.parseMessage(CountingBytes(raw), [])
+        out = 'value'
+    except Exception:
+        out = 'exception'
+    return {'len': len(raw), 'copied': CountingBytes.copied[0], 'outcome': out}
+
+
 def run_cpu_child(cases):
     """decode the cases in a child with RLIMIT_CPU; returns recs (the case the child died in is
     recorded as outcome 'killed')"""
@@ -316,6 +341,29 @@ def run_cpu_child(cases):
                          'mem_kb': 0})
             break
     return recs
+
+
+class address_space_limit:
+    """while hostile bytes are decoded inside this process, its address space is capped: a decoder that sizes a buffer
+    by an announced length then ends in MemoryError (judged: not acceptable work) instead of taking the machine down"""
+
+    def __init__(self, nbytes=3 << 30):
+        self.nbytes = nbytes
+
+    def __enter__(self):
+        import resource
+        self.old = resource.getrlimit(resource.RLIMIT_AS)
+        try:
+            resource.setrlimit(resource.RLIMIT_AS, (self.nbytes, self.old[1]))
+        except (ValueError, OSError):
+            pass
+
+    def __exit__(self, *a):
+        import resource
+        try:
+            resource.setrlimit(resource.RLIMIT_AS, self.old)
+        except (ValueError, OSError):
+            pass
 
 
 def run(tier, seed):
@@ -349,6 +397,8 @@ def run(tier, seed):
     # ---- 2. spec -> code: every modelled byte string is decoded by the implementation under the counter
     nbad = 0
     worst = 0.0
+    limit = address_space_limit()
+    limit.__enter__()
     for i, st in enumerate(all_states):
         T, le, d = st['T'], st['le'], bytes(st['d'])
         sg = hsig(T)
@@ -384,6 +434,7 @@ def run(tier, seed):
         descr.append((name, raw))
     for j in range(len(valid)):
         iso.append((j, len(recs), {'before': before[j], 'after': decode_valid(valid[j])}))
+    limit.__exit__()
     # work inside single C calls is invisible to the call counter: the sibling-container family (and the
     # hostile signatures above) is decoded again in a child process under a CPU limit, CPU time recorded
     cc_cases = cpu_cases() + hostile_messages(rng) + count_lies() + array_lies(rng)
@@ -430,6 +481,20 @@ def run(tier, seed):
         j, after_n, r = iso[ti]
         chk.violation('valid message %d decodes differently after %d hostile inputs were decoded in the same process: %r -> %r' % (
             j, after_n, r['before'], r['after']), dict(kind='code->spec isolation', module='c05', rec=r, after_hostile_inputs=after_n))
+    # copying: bytes produced by slicing the input while decoding stay proportional to its length
+    cw = []
+    for name, raw, _ in scaling_cases()[:1] + [('nested', refwire.msg(4, 94, [('path', '/a'), ('interface', 'a.b'), ('member', 'S')], 'aaay',
+                                                          [[[[i % 200] * 3 for i in range(40)] for _ in range(40)]]), 4)]:
+        r = copy_work(raw)
+        cw.append((name, r))
+    rej, stt = core.validate_traces('MC_Decoder', OBS, [[({'n': 'Init'}, {'rec': r})] for _, r in cw], {},
+                                    cfg_consts='CONSTANTS\n MaxLen = 1\n Alphabet = {0}\n ZeroOK = FALSE\n Fuel = 10\n',
+                                    initpred='Dummy /\\ TraceCopy', nproc=1)
+    chk.notes['copied_per_input_byte'] = {n: round(r['copied'] / float(r['len']), 2) for n, r in cw}
+    for ti, _, _ in rej[:2]:
+        n, r = cw[ti]
+        chk.violation('decoding %s (%d bytes) copied %d bytes by slicing its input' % (n, r['len'], r['copied']),
+                      dict(kind='code->spec copying', module='c05', rec=r))
     bus_isolation(chk, rng, thorough)
     # ---- canary
     bad = dict(recs[0], outcome='budget', mem_kb=0)
